@@ -1,3 +1,11 @@
+/-
+C01 (lowering), the simulation: for every instruction / body of the fragment, every structured fuel `n`, every
+typing context, frame stack and placement of the lowered code in the operation list, the outcome of
+`Wz.Spec.Wasm.execInstr` / `execSeq` is matched by a run of the flat machine (`Sim`): `next` reaches the end of
+the code with the related stack, `br l` / `return` reach the resolved label with the stack the drop range leaves,
+a trap traps, and an exhausted run lets the machine make at least `n - weight` steps.  `sim_all` is the induction
+on the fuel.
+-/
 import Wz.Proofs.C01_FlatLower_Basic
 import Wz.Proofs.C01_FlatLower_Num
 import Wz.Proofs.C01_FlatLower_Static
